@@ -306,6 +306,11 @@ package funnel
 //verif:call[ack-only-at-chain-end-or-all-filtered] ackNacker.Ack requires firstTaskGuards() && succeeded("Task.Do") && called("(*TaskNode).HasNext") && (!result_of("(*TaskNode).HasNext", 0) || !result_of("(*Batch).HasActiveRecords", 0))
 //verif:call[next-task-under-guards] (*Worker).doNextTask requires firstTaskGuards() && succeeded("Task.Do")
 //verif:call[nack-under-guards] ackNacker.Nack requires firstTaskGuards() && succeeded("Task.Do")
+// The tainted batch is cut left to right without gap or overlap: every cut starts
+// exactly where the previous window ended, measured when it was CUT (a task may grow
+// the sub-batch afterwards; that growth must not move the cursor, #2722).
+//verif:call[each-cut-starts-where-the-previous-window-ended] (*Worker).subBatchByFlag requires arg1 == b && (!called("(*Worker).subBatchByFlag") && arg2 == 0 || called("(*Worker).subBatchByFlag") && arg2 == arg_of("(*Worker).subBatchByFlag", 2) + exported("(*Worker).subBatchByFlag", "cutlen"))
+//verif:loop 0 invariant !called("(*Worker).subBatchByFlag") && idx == 0 || called("(*Worker).subBatchByFlag") && idx == arg_of("(*Worker).subBatchByFlag", 2) + exported("(*Worker).subBatchByFlag", "cutlen")
 
 // Stop: lock, then flag, then source teardown; the lock is released on return.
 //verif:func (*Worker).Stop(w, ctx) (err)
@@ -372,6 +377,7 @@ package funnel
 // run of that class and not longer, and its filter count is recounted exactly.
 //verif:def sameClass(x, y) = x == y || (x == RecordFlagAck || x == RecordFlagFilter) && (y == RecordFlagAck || y == RecordFlagFilter)
 //verif:func (*Worker).subBatchByFlag(w, b, firstIndex) (s)
+//verif:export cutlen = ite(s == nil, 0, len(s.records))
 //verif:requires BLens(b) && 0 <= firstIndex
 //verif:modifies nothing
 //verif:ensures[nil-at-end] (firstIndex >= len(b.recordStatuses)) == (s == nil)
@@ -398,3 +404,35 @@ package funnel
 //verif:call[poison-only-true-under-lock] (*Bool).Store@poisoned requires arg1 && called("(*Mutex).Lock") && result_of("(*Worker).doTaskAttempt", 0) != nil
 //verif:call[no-pass-through-a-poisoned-boundary] (*Worker).doTaskAttempt requires !taskNode.sharedBoundary || called("(*Mutex).Lock") && called("(*Bool).Load@poisoned") && !result_of("(*Bool).Load@poisoned", 0)
 //verif:ensures[error-is-the-pass-error] called("(*Worker).doTaskAttempt") ==> err == result_of("(*Worker).doTaskAttempt", 0)
+
+// ---- C07 / C08: the split-run ledger ---------------------------------------------------
+// The pieces of one split record are resolved together: each vote credits its pieces
+// once, a nack vote is sticky, and the original record is released to the parent exactly
+// once - when every piece has voted - as a nack if ANY piece was nacked (whatever the
+// last vote was), as an ack otherwise; a released run is never voted on again.
+//verif:func (*splitRun).complete(r) (done, err)
+//verif:pure
+//verif:ensures[complete-iff-all-voted] err == nil ==> done == (r.terminalCount == r.total)
+//verif:ensures[double-credit-is-an-error] (err != nil) == (r.terminalCount > r.total)
+
+//verif:func (*runAckNacker).vote(r, ctx, batch, isAck, taskID) (err)
+//verif:requires BLens(batch)
+//verif:call[original-acked-only-when-every-piece-voted-and-none-nacked] ackNacker.Ack requires run != nil && run.terminalCount == run.total && !run.nacked && run.released && arg1 == result_of("(*splitRun).ackBatch", 0)
+//verif:call[original-nacked-when-every-piece-voted-and-some-piece-nacked] ackNacker.Nack requires run != nil && run.terminalCount == run.total && run.nacked && run.released && arg1 == result_of("(*splitRun).nackBatch", 0) && arg2 == run.nackTaskID
+//verif:store[a-nack-vote-is-sticky] nacked requires newval && !isAck
+//verif:store[released-exactly-once] released requires newval && !run.released && run.terminalCount == run.total
+//verif:store[each-piece-credited-once] terminalCount requires newval == run.terminalCount + (j - i) && !run.released && i < j
+//verif:call[unsplit-records-go-straight-through] (*runAckNacker).forward requires run == nil && arg3 == isAck && arg4 == taskID
+//verif:loop 0 invariant 0 <= i && i <= len(batch.records) && BLens(batch)
+//verif:loop 1 invariant 0 <= i && i < j && j <= len(batch.records) && BLens(batch)
+//verif:call-preserves ackNacker.Ack : all(batch) because "the parent is handed the run's own one-record batch (ackBatch) or, through forward, a clipped window of this batch; it has no access path to this batch's slice headers and counters"
+//verif:call-preserves ackNacker.Nack : all(batch) because "see above (nackBatch)"
+//verif:call-preserves (*runAckNacker).forward : all(batch) because "forward passes a sub-batch made by sub(): its slices are clipped windows, growing them reallocates; the parent does not reach this batch's headers"
+
+// The batch released for a run is the ORIGINAL record at its ORIGINAL position, once.
+//verif:func (*splitRun).ackBatch(r) (b)
+//verif:modifies nothing
+//verif:ensures[the-original-record] fresh(b) && len(b.records) == 1 && len(b.positions) == 1 && len(b.recordStatuses) == 1 && b.positions[0] == r.origPos && b.recordStatuses[0].Flag == RecordFlagAck && b.filterCount == 0 && isnil(b.runs)
+//verif:func (*splitRun).nackBatch(r) (b)
+//verif:modifies nothing
+//verif:ensures[the-original-record] fresh(b) && len(b.records) == 1 && len(b.positions) == 1 && len(b.recordStatuses) == 1 && b.positions[0] == r.origPos && b.recordStatuses[0].Flag == RecordFlagNack && b.recordStatuses[0].Error == r.nackErr && b.filterCount == 0 && isnil(b.runs) && b.tainted
